@@ -100,8 +100,8 @@ def create_hamming_parity_submatrix(mu: int, extended: bool = False, dtype: torc
 
     # For extended Hamming code, add an overall parity check
     if extended:
-        # Add a row of all ones to the parity submatrix
-        parity_extension = torch.ones((k, 1), dtype=dtype, device=device)
+        # Overall parity bit: each generator row [e_i | p_i | x_i] must have even weight
+        parity_extension = (1 + parity_submatrix.sum(dim=1, keepdim=True)) % 2
         parity_submatrix = torch.cat([parity_submatrix, parity_extension], dim=1)
 
     return parity_submatrix
